@@ -75,7 +75,7 @@ def gen_schedule(rng, rig, nthr, nops, in_win, peer_max, allow_close=True, allow
             cands += [("adjust %d" % rng.choice([1, 1, 10, 64, 100, 4032, 5000, 32768, 1 << 31, U32]), 6),
                       ("feed %d" % rng.choice([1, 5, 100, 3000, 3276, 3277, 4000, 9000, min(in_win // 10, 250000),
                                                min(in_win // 10 + 1, 250000)]), 5)]
-        cands += [("mode %s" % rng.choice(["b", "n", "n", "t3", "t10"]), 2)]
+        cands += [("mode %s" % rng.choice(["b", "bb", "n", "n", "n0", "nb", "t3", "t10"]), 2)]
         if allow_close and i > nops // 2:
             cands += [("shutr", 0.3), ("unlink", 0.3)]
             if not local_only:
@@ -114,7 +114,24 @@ def clamp_facts():
             args = st.value.args
             b = (len(args) == 3 and getattr(args[0], "id", "") == "MIN_PACKET_SIZE"
                  and getattr(args[2], "id", "") == "MAX_WINDOW_SIZE" and getattr(args[1], "id", "") == "max_packet_size")
-    return ("true" if a else "false", "true" if b else "false")
+    # _parse_channel_open: the three arguments of chan._set_remote_channel(…) are plain names, each assigned exactly
+    # once in the function, by m.get_int() (i.e. they are what the peer's CHANNEL_OPEN said)
+    c = False
+    fn = ast.parse(textwrap.dedent(inspect.getsource(Transport._parse_channel_open))).body[0]
+    assigns = {}
+    for n in ast.walk(fn):
+        if isinstance(n, ast.Assign):
+            for t in n.targets:
+                if isinstance(t, ast.Name):
+                    assigns.setdefault(t.id, []).append(n.value)
+    for n in ast.walk(fn):
+        if isinstance(n, ast.Call) and isinstance(n.func, ast.Attribute) and n.func.attr == "_set_remote_channel":
+            names = [a.id for a in n.args if isinstance(a, ast.Name)]
+            c = (len(names) == 3 and len(n.args) == 3 and all(
+                len(assigns.get(x, [])) == 1 and isinstance(assigns[x][0], ast.Call)
+                and isinstance(assigns[x][0].func, ast.Attribute) and assigns[x][0].func.attr == "get_int"
+                for x in names))
+    return ("true" if a else "false", "true" if b else "false", "true" if c else "false")
 
 
 class WireMonitor:
@@ -178,6 +195,9 @@ def run_schedule(ctx, rng, nthr, nops, **gen_kw):
                 if lt.state == "gotbytes":
                     mon.consumed += lt.info
             mon.observe(rig.wire)
+            pp = rig.protocol_problem()
+            if pp is not None and not mon.problem:
+                mon.problem = pp
             lw = rig.lost_wakeup()
             if lw is not None and not mon.problem:
                 mon.problem = ("lost-wakeup:parked-sender-not-notified",
@@ -250,6 +270,103 @@ def adjust_vs_send(ctx, rng, batches):
             if mon.problem:
                 ctx.fail(mon.problem[0] + ":window-adjust-lost-update", case, mon.problem[1])
             batches.append((case, reqs, impl))
+
+
+def through_the_open_path(ctx, rng, batches):
+    """Channels as the Transport really sets them up: PEER-opened channels (server side: session, direct-tcpip;
+    client side: x11, forwarded-tcpip, auth-agent) through Transport._parse_channel_open, and locally opened ones
+    through open_channel + the peer's OPEN_CONFIRMATION — with the peer announcing window / maximum packet sizes
+    different from paramiko's defaults.  The acceptor then sends more than one packet's worth.
+    Oracle: every data message ≤ the maximum packet size the PEER announced in ITS message (when ≥ 4096), addressed
+    to the peer's id, total ≤ the peer's window.  Correspondence: window, clamped packet size and the messages
+    against the model started from the announced values."""
+    import re
+    from pv.props.c23 import Rig as TRig
+    kinds = [("session", True), ("direct-tcpip", True), ("x11", False), ("forwarded-tcpip", False),
+             ("auth-agent@openssh.com", False), ("local-open", True), ("local-open", False)]
+    maxes = [0, 100, 4095, 4096, 4097, 5000, 16384, 32767, 32768, 40000, 1 << 20, U32]
+    for kind, server_mode in kinds:
+        for peer_max in maxes:
+            peer_win = rng.choice([32768, 40000, 100000, 1 << 21])
+            peer_id = rng.choice([0, 5, 77, 4000])
+            rig = TRig(server_mode)
+            sent = []
+            normal = rig._sent
+
+            def record(m, normal=normal, sent=sent):
+                if m.asbytes()[0] in (lib_chan.MSG_DATA, lib_chan.MSG_EXT, lib_chan.MSG_ADJUST, lib_chan.MSG_EOF,
+                                      lib_chan.MSG_CLOSE):
+                    sent.append((lib_chan.decode(m), lib_chan.recipient(m)))
+                    return
+                return normal(m)
+
+            rig.t._send_user_message = record
+            rig.t._send_message = record
+            if kind == "local-open":
+                rig.reply_window, rig.reply_maxpkt = peer_win, peer_max
+                chan = rig.t.open_channel("session", timeout=30)
+                peer_id = chan.remote_chanid
+            else:
+                rig.t._parse_channel_open(rig.peer_msg(kind, peer_win, peer_max, peer_id))
+                chan = rig.t.server_accepts.pop() if rig.t.server_accepts else None
+            case = {"opened_by": "us" if kind == "local-open" else "peer", "kind": kind, "server_mode": server_mode,
+                    "peer_window": peer_win, "peer_max_packet": peer_max, "peer_channel_id": peer_id}
+            ctx.case(("open-path", kind, server_mode, peer_max, peer_win), peer_max != 32768)
+            ctx.dist("channels-through-the-open-path")
+            if chan is None:
+                ctx.fail("peer-open-not-accepted", case, "no channel")
+                continue
+            chan.settimeout(0.0)
+            reqs = ["init %d %d %d 1 0" % (chan.in_window_size, peer_win, peer_max)]
+            impl = [(chan.out_window_size, chan.out_max_packet_size, "-")]
+            total = 0
+            for ext in (0, 1, 0):
+                try:
+                    n = (chan.send_stderr if ext else chan.send)(b"z" * 70000)
+                except Exception as e:  # noqa
+                    case["raised"] = repr(e)
+                    break
+                total += n
+                reqs += ["send 0 70000 %d" % ext, "emit 0"]
+                impl += [None, (chan.out_window_size, chan.out_max_packet_size, sent[-1][0] if sent else "-")]
+            chan.closed = True
+            case["wire"] = sent[:6]
+            for tok, to in sent:
+                n = int(tok[1:])
+                if peer_max >= 4096 and n > peer_max:
+                    ctx.fail("data-message-exceeds-peer-max-packet:channel-opened-by-" + case["opened_by"], case,
+                             "%s carries %d bytes; the peer announced a maximum packet size of %d" % (tok, n, peer_max))
+                    break
+                if to != peer_id:
+                    ctx.fail("message-addressed-to-wrong-channel-id", case, "%s addressed to %d, peer's id %d"
+                             % (tok, to, peer_id))
+                    break
+            if total > peer_win:
+                ctx.fail("sent-exceeds-granted-window", case, "sent %d window %d" % (total, peer_win))
+            batches.append(("open-path", case, reqs, impl))
+
+
+def compare_open_path(ctx, batches):
+    import re
+    mine = [b for b in batches if b[0] == "open-path"]
+    all_reqs = []
+    for _, _, reqs, _ in mine:
+        all_reqs += reqs
+    model = ctx.driver("C19", all_reqs)
+    if model is None:
+        return
+    pos = 0
+    for _, case, reqs, impl in mine:
+        got = model[pos:pos + len(reqs)]
+        pos += len(reqs)
+        for g, i, r in zip(got, impl, reqs):
+            if i is None:
+                continue
+            mm = re.search(r"o=(\d+) .* w=\d+:(\S+) p=(\d+) ", g)
+            proj = (int(mm.group(1)), int(mm.group(3)), mm.group(2)) if mm else g
+            if proj != i:
+                ctx.disagree("open-path", dict(case, at=r), repr(proj), repr(i))
+                return
 
 
 def free_running(ctx, rng):
@@ -382,13 +499,16 @@ def run(ctx):
         "    and Transport._sanitize_packet_size returns clamp_value(MIN_PACKET_SIZE, …, MAX_WINDOW_SIZE) -/\n"
         "def remote_max_packet_sanitised : Bool := %s\n"
         "def sanitise_is_clamp_min_max : Bool := %s\n"
+        "/-- Transport._parse_channel_open hands chan._set_remote_channel the three values parsed from the peer's\n"
+        "    CHANNEL_OPEN (names assigned exactly once, by m.get_int()) -/\n"
+        "def peer_open_passes_parsed_values : Bool := %s\n"
         "end PV.Generated.C19\n" % ((common.MIN_PACKET_SIZE, common.MAX_WINDOW_SIZE, common.MIN_WINDOW_SIZE)
                                       + clamp_facts())))
     import paramiko.channel as chmod
     from pv import lib_chanlock
     sites, notifies = lib_chanlock.channel_tables(chmod.Channel)
     accesses = lib_chanlock.window_accesses(chmod.Channel)
-    ctx.write_generated("ChanLock", lib_chanlock.lean_tables(sites, notifies, accesses))
+    ctx.write_generated("ChanLock", lib_chanlock.lean_tables_for(chmod.Channel))
     ctx.extra["out_window_size_accesses"] = ["%s:%s:%s" % (f, k, "locked" if l else "UNLOCKED") for f, k, l in accesses]
     ctx.build(extra_modules=["PV.Model.ChanDriver"])
     rng = ctx.rng
@@ -414,7 +534,10 @@ def run(ctx):
             ctx.fail("unexpected-exception:" + e.split(":")[1], case, e)
         batches.append((case, reqs, impl))
     adjust_vs_send(ctx, rng, batches)
+    open_batches = []
+    through_the_open_path(ctx, rng, open_batches)
     compare(ctx, "C19", batches)
+    compare_open_path(ctx, open_batches)
     for _ in range(60 if ctx.thorough else 20):
         free_running(ctx, rng)
 
